@@ -36,6 +36,9 @@ type C11Op struct {
 }
 
 type C11Case struct {
+	// ShareOpts: every client passes the SAME options values (one ContextBoosts map object per option set), as the
+	// tasks of one long-lived caller would; the engine may read them concurrently and must not write them
+	ShareOpts bool `json:"callers_share_option_values,omitempty"`
 	System   string    `json:"system"` // lru searchcache cached monitored
 	Capacity int       `json:"capacity"`
 	TTL      int64     `json:"ttl_ns"`
@@ -110,6 +113,13 @@ func genC11(rt *rapid.T) C11Case {
 		c.Options = []Opts{genOpts(rt)}
 		if rapid.Bool().Draw(rt, "twoopts") {
 			c.Options = append(c.Options, mutateOpt(rt, c.Options[0], rapid.SampledFrom(optFields).Draw(rt, "field")))
+		}
+		if rapid.IntRange(0, 2).Draw(rt, "shareopts") == 0 {
+			c.ShareOpts = true
+			if rapid.Bool().Draw(rt, "shareboosts") {
+				c.Options[0] = entangleBoosts(rt, c.Options[0], c.Queries[0])
+				c.Options[0].UseNLP = true
+			}
 		}
 		kinds := []string{"direct", "cached", "cached", "cached", "invalidate", "cleanup", "stats", "advance"}
 		if c.System == "monitored" {
@@ -522,6 +532,25 @@ func runC11(c C11Case) *Outcome {
 				}
 			}
 		}
+		sharedOpts := map[string]database.SearchOptions{}
+		dbOpts := func(eo Opts) database.SearchOptions {
+			if !c.ShareOpts {
+				return eo.toDB()
+			}
+			return sharedOpts[fmt.Sprintf("%+v", eo)]
+		}
+		if c.ShareOpts {
+			for _, cl := range c.Clients {
+				for _, op := range cl {
+					if op.Kind == "direct" || op.Kind == "cached" || op.Kind == "monitored" {
+						eo := c11EffOpts(op.Kind, op.Entry, c.Options[op.O%len(c.Options)])
+						if _, ok := sharedOpts[fmt.Sprintf("%+v", eo)]; !ok {
+							sharedOpts[fmt.Sprintf("%+v", eo)] = eo.toDB()
+						}
+					}
+				}
+			}
+		}
 		for i := range c.Clients {
 			r := &c11ClientRec{}
 			recs[i] = r
@@ -537,24 +566,24 @@ func runC11(c C11Case) *Outcome {
 						var got []database.SearchResult
 						switch op.Kind {
 						case "direct":
-							got = mdb.Database.SearchUniversal(q, eo.toDB())
+							got = mdb.Database.SearchUniversal(q, dbOpts(eo))
 						case "cached":
 							switch op.Entry % 4 {
 							case 0:
-								got = mdb.SearchWithOptionsAndCache(q, eo.toDB())
+								got = mdb.SearchWithOptionsAndCache(q, dbOpts(eo))
 							case 1:
 								got = mdb.SearchWithCache(q, eo.Limit)
 							case 2:
-								got = mdb.SearchWithPipelineOptionsAndCache(q, eo.toDB())
+								got = mdb.SearchWithPipelineOptionsAndCache(q, dbOpts(eo))
 							default:
-								got = mdb.SearchWithFuzzyAndCache(q, eo.toDB())
+								got = mdb.SearchWithFuzzyAndCache(q, dbOpts(eo))
 							}
 							r.lookups++
 						case "monitored":
 							if op.Entry%2 == 1 {
 								got = mdb.SearchWithMonitoring(q, eo.Limit)
 							} else {
-								got = mdb.SearchWithOptionsAndMonitoring(q, eo.toDB())
+								got = mdb.SearchWithOptionsAndMonitoring(q, dbOpts(eo))
 							}
 							r.lookups += 2
 							r.monSrch++
